@@ -34,8 +34,8 @@ out = ['### 9.1 Results (quick checks, every claimed property run against every 
        '| id | change | needs | alarms | undecided | obligation reported for the primary property |', '|---|---|---|---|---|---|'] + rows
 STATS = globals().get('STATS', {})
 summ = ['', 'Summary of the last full run (primary property of each change): ' + '; '.join(
-    'batch %s: %d refuted by the deductive verifier, %d by the bounded native fallback/standing check, %d undecided, %d missed' % (('1 (ids _1, _2)' if False else b), v['deductive'], v['bounded'], v['undecided'], v['missed'])
-    for b, v in sorted(STATS.items())) + ' (suffix _1/_2 = batch 1, _3 = batch 2, _4 = batch 3).']
+    'ids _%s: %d refuted by the deductive verifier, %d by the bounded native fallback/standing check, %d undecided, %d missed' % (b, v['deductive'], v['bounded'], v['undecided'], v['missed'])
+    for b, v in sorted(STATS.items())) + ' (suffix _1/_2 = batch 1, _3 = batch 2, _4 = batch 3, _5 = batch 4, _6 = batch 5 - the novelty round). "Refuted by the deductive verifier" counts a change when at least one reported obligation of its primary property is a named clause.']
 out += summ
 ben = []
 for d in sorted(glob.glob(os.path.join(V, 'benign', 'B*'))):
